@@ -246,6 +246,16 @@ Definition run_feat (args : list N) : list (list N) :=
   let '(s, _) := take (N.to_nat (hdN args)) (tlN args) in
   [[match Feat.parse_features s with Some false => 0 | Some true => 1 | None => 2 end]].
 
+(** FEAT2 = has_pre npre chars.. has_post npost chars..: the value written before the sub-command and the one written
+    after it (each may be absent); result as FEAT ([Feat.command_line]) *)
+Definition run_feat2 (args : list N) : list (list N) :=
+  let has_pre := negb (hdN args =? 0) in
+  let '(pre, rest) := take (N.to_nat (hdN (tlN args))) (tlN (tlN args)) in
+  let has_post := negb (hdN rest =? 0) in
+  let '(post, _) := take (N.to_nat (hdN (tlN rest))) (tlN (tlN rest)) in
+  [[match Feat.command_line (if has_pre then Some pre else None) (if has_post then Some post else None) with
+    | Some false => 0 | Some true => 1 | None => 2 end]].
+
 Definition run_lc3 (args : list N) : list (list N) :=
   let feat := negb (hdN args =? 0) in
   let fuel := N.to_nat (hdN (tlN args)) in
